@@ -139,7 +139,11 @@ def oracle(sc, ctx, program):
             out.append((sig, f"{msg} | history={hist} | program={program}"))
     for sig, msg in loaded_origin(factory, _TIER):
         out.append((sig, f"{msg} | program={program}"))
+    ctx.counters = dict(LAST_COUNTS)
     return out
+
+
+LAST_COUNTS = {"loaded_copies_mutated_and_round_tripped": 0, "built_vs_loaded_differential_pairs": 0}
 
 
 def loaded_origin(factory, tier):
@@ -149,7 +153,9 @@ def loaded_origin(factory, tier):
     structure - a reader that dropped something the queries do not show (port counts, free-index lists,
     link bookkeeping) gives itself away at the next mutation."""
     out = []
+    LAST_COUNTS.update(loaded_copies_mutated_and_round_tripped=0, built_vs_loaded_differential_pairs=0)
     for hist, l in mutate.loaded_histories(factory, tier):
+        LAST_COUNTS["loaded_copies_mutated_and_round_tripped"] += 1
         tag = "loaded+" + hist[1][0]
         if l is None:
             out.append((f"loaded-origin:mutation-raised:{hist[1][0]}", f"{hist[2][1]} | history={hist}"))
@@ -177,6 +183,7 @@ def loaded_origin(factory, tier):
         except Exception as e:  # noqa: BLE001
             out.append((f"loaded-origin:mutation-raised:{m[0]}", f"{m} succeeds on the built HUGR, {ml} on its loaded copy raised {type(e).__name__}: {e}"))
             continue
+        LAST_COUNTS["built_vs_loaded_differential_pairs"] += 1
         (s1, k1), (s2, k2) = structure(h), structure(l)
         if len(s1) != len(s2):
             out.append((f"loaded-origin:differs:node-count:{m[0]}", f"after {m}: {len(s1)} nodes from the built HUGR, {len(s2)} from its loaded copy"))
@@ -254,7 +261,9 @@ def run(tier: str, seed: int) -> Result:
         "rule": "every complete builder program of the plan x every store-mutation history up to the depth bound (delete leaf, add "
         "node with attribute-rich ops, order link, delete link, insert fragment, metadata over JSON values, index reuse); "
         "oracle: load succeeds, same JSON value (type-strict: true/1/1.0 differ), same observable structure under order-preserving "
-        "renumbering; plus the size ladders of mc/drivers/ladder.py, each as built and after every single mutation",
+        "renumbering; plus the size ladders of mc/drivers/ladder.py, each as built and after every single mutation; plus the other origin: the loaded "
+        "copy of every program / ladder HUGR after one mutation of each kind round-trips, and the same mutation on the built HUGR and on its loaded "
+        "copy leaves the same observable structure (counts under feature_counts 'oracle:*')",
         "samples": r.samples or [{"scenario": "D1", "program": []}],
         "exhaustive": True,
         "plan": plan,
